@@ -23,13 +23,14 @@ package fasthttp
 //@ spec closeLast(b []byte, n int) bool = (n >= 6 && lc5(b, n-5) && b[n-6] == ',') || (n >= 7 && lc5(b, n-5) && b[n-6] == ' ' && b[n-7] == ',')
 
 //@ func RequestHeader.parseHeaders results n err
-//@   property C01 C10
+//@   property C01 C10 C09
 //@   mode skeleton
 //@   stable h.disableSpecialHeader h.noHTTP11 h.secureErrorLogMessage h.disableNormalizing
 //@   ghost sawCL bool = false
 //@   ghost sawTE bool = false
 //@   ghost teChunked bool = false
 //@   ghost askedClose bool = false
+//@   requires[block-delimited-by-caller@C09] 0 < blockEnd && blockEnd <= len(buf)
 //@   on call caseInsensitiveCompare(a, b) -> r:
 //@     nohavoc
 //@     effect sawCL = sawCL || (r && sameSlice(b, strContentLength)); sawTE = sawTE || (r && sameSlice(b, strTransferEncoding)); teChunked = teChunked || (r && sameSlice(b, strChunked)); askedClose = askedClose || (r && sameSlice(b, strConnection) && (closeFirst(s.value, len(s.value)) || closeLast(s.value, len(s.value))))
@@ -45,10 +46,14 @@ package fasthttp
 //@     invariant[not-chunked] !teChunked ==> h.contentLength != -1
 //@     invariant[cl-flag] sawCL == contentLengthSeen
 //@     invariant[te-flag] sawTE == transferEncodingSeen
+//@     invariant[block-end-kept@C09] s.initialized || (s.blockEnd == blockEnd && len(s.b) == len(buf))
 //@   loop 2:
 //@     invariant[asked-close-kept@C10] askedClose && !h.disableSpecialHeader ==> h.connectionClose
 //@   on call headerScanner.next -> more:
 //@     havoc heap
+//@     requires[scanner-gets-callers-block@C09] s.initialized || s.blockEnd == blockEnd
+//@     requires[request-heads-are-scanned-with-a-known-end@C09] s.initialized || (0 < s.blockEnd && s.blockEnd <= len(s.b))
+//@     ensures more ==> s.initialized
 //@   on call header.SetTrailerBytes -> e:
 //@     nohavoc
 //@     modifies h.trailer
@@ -154,3 +159,21 @@ package fasthttp
 //@                         (off(bNext) == off(buf) || buf[off(bNext) - off(buf) - 1] == 10)
 //@     invariant[line-inside-buf] len(b) == 0 || (rgn(b) == rgn(buf) && off(buf) <= off(b) && off(b) + len(b) < off(bNext))
 //@   ensures[consumed-ends-at-newline] err == nil ==> 1 <= n && n <= len(buf) && buf[n-1] == 10
+
+// RequestHeader.parse (C09): the head is delimited once, by readRawHeaders, and the header parser is handed exactly that
+// block end -- so what follows the blank line can never change how the head is parsed (see headerScanner.next).
+//@ func RequestHeader.parse results n err
+//@   property C09
+//@   mode skeleton
+//@   ghost blockLen int = -1
+//@   ghost firstLine int = -1
+//@   on call RequestHeader.parseFirstLine -> k, e:
+//@     also
+//@     effect firstLine = k
+//@   on call readRawHeaders -> o, k, e:
+//@     also
+//@     effect blockLen = (e == nil ? k : -1)
+//@   on call RequestHeader.parseHeaders(_, b, be) -> k, e:
+//@     also
+//@     requires[passes-the-block-end-it-found] be == blockLen && blockLen > 0
+//@   end
